@@ -497,7 +497,8 @@ pub struct Stats {
     pub points: u64,
     pub max_points: usize,
     pub capped: bool,
-    pub bound_completed: u32,
+    /// Highest preemption bound explored completely; -1 if none.
+    pub bound_completed: i64,
 }
 
 /// Preemption-bounded DFS. `run_one(prefix)` runs an execution and returns it;
@@ -507,11 +508,18 @@ pub struct Stats {
 /// preemptions and cost nothing against `bound`.
 pub fn explore(bound: u32, free_bound: u32, shard: (usize, usize), cap_s: u64, run_one: &mut dyn FnMut(&[usize]) -> Exec, stats: &mut Stats) {
     let t0 = std::time::Instant::now();
-    let mut item = 0usize;
     let fb = if free_bound == 0 { u32::MAX } else { free_bound };
-    rec(&[], (0, 0), (bound, fb), shard, cap_s, t0, run_one, stats, &mut item, true);
-    if !stats.capped {
-        stats.bound_completed = bound;
+    stats.bound_completed = -1;
+    // Under a wall cap the bound is iterated (0, 1, .. bound) so that what was
+    // covered when the cap hits is a completed bound, not a DFS fragment.
+    let first = if cap_s > 0 { 0 } else { bound };
+    for b in first..=bound {
+        let mut item = 0usize;
+        rec(&[], (0, 0), (b, fb), shard, cap_s, t0, run_one, stats, &mut item, true);
+        if stats.capped {
+            break;
+        }
+        stats.bound_completed = b as i64;
     }
 }
 
